@@ -140,8 +140,8 @@ static void do_call(Obj& o, std::string const& fn, int a, int b)
   }
   catch (Fatal const&) { H::emit("V fatal"); }
   catch (SeThrow const& e) { H::emit("V exc S %d %d", e.id, e.idx); }
-  catch (ThrowInt const& e) { H::emit("V exc I %d", e.id); }
-  catch (ThrowStd const& e) { H::emit("V exc P %d %s", e.id, H::esc(e.what()).c_str()); }
+  catch (ThrowInt const& e) { H::emit("V exc I %d %d", e.id, e.arg); }
+  catch (ThrowStd const& e) { H::emit("V exc P %d %s %d", e.id, H::esc(e.what()).c_str(), e.arg); }
   catch (std::exception const& e) { H::emit("V exc E %s", H::esc(e.what()).c_str()); }
   catch (...) { H::emit("V exc U"); }
 }
